@@ -15,13 +15,35 @@ theorem accounting_exact (s : St) (hr : Reachable s) (hw : s.w = none) :
     (∀ p ∈ s.fl.freeIds, 2 ≤ p ∧ p < s.cur.hwm ∧ p ∉ s.fl.pendingIds) ∧
     (∀ p ∈ s.fl.pendingIds, 2 ≤ p ∧ p < s.cur.hwm) ∧
     s.cur.used.Nodup ∧ s.fl.freeIds.Nodup ∧ s.fl.pendingIds.Nodup := by
-  sorry
+  have hi := hr.inv
+  have hfreed := St.freed_none hw
+  have hnp : ∀ p ∈ s.cur.used, p ∉ s.fl.pendingIds := by
+    intro p hp hpp
+    have := hi.used_pend p hp hpp
+    rw [hfreed] at this
+    cases this
+  refine ⟨?_, ?_, ?_, ?_, hi.used_nodup, (sorted_lt_iff.mp hi.fl.freeIds_sorted).2, hi.fl.pending_nodup⟩
+  · intro p h1 h2
+    rcases hi.cover p h1 (by rw [St.hwm_none hw]; exact h2) with h | h | h | h
+    · exact Or.inl h
+    · exact Or.inr (Or.inl h)
+    · exact Or.inr (Or.inr h)
+    · rw [St.allocated_none hw] at h; cases h
+  · intro p hp
+    exact ⟨(hi.used_bd p hp).1, (hi.used_bd p hp).2, hi.used_free p hp, hnp p hp⟩
+  · intro p hp
+    exact ⟨hi.fl.freeIds_ge2 hp, hi.free_bd p hp, hi.fl.disjoint p hp⟩
+  · intro p hp
+    exact ⟨hi.fl.pending_ge2 p hp, hi.pend_bd p hp⟩
 
 /-- The page set of a committed version is exactly (previous pages minus freed) plus
     allocated — the transition form that the harness checks against the independent decode
     of the file after every real commit. -/
 theorem commit_page_set (s : St) (w : W) (hw : s.w = some w) (s' : St) (h : stepAll s .commit = some s') :
     s'.cur.used = (s.cur.used.filter (fun p => !w.freed.contains p)) ++ w.allocated ∧ s'.cur.hwm = w.hwm := by
-  sorry
+  obtain ⟨w', hw', rfl⟩ := step_commit h
+  rw [hw] at hw'
+  cases hw'
+  exact ⟨newVersion_used s.cur w, rfl⟩
 
 end Bolt.C07
